@@ -52,6 +52,12 @@ CLAIMS["C12"] = dict(
     technique=KANI + "; exact-size scratch window with symbolic contents, reference-level function as oracle",
     ref="DESIGN.md §5 C12",
 )
+CLAIMS["C17"] = dict(
+    text="Kani checks every dereference, slice construction, pointer offset and alignment it executes, so every harness of every claimed property is also a memory-safety obligation inside its bounds. Dedicated obligations decided here: resize/re-allocate/set_size histories of VecZnx followed by the unchecked raw-pointer accessors (with the metadata invariant asserted explicitly so that a violation reproduces natively), accessors of every layout for symbolic in-range indices, views carved out of scratch windows at several alignments (and refusal of oversize requests), and the AVX2 integer kernels on slices that are exactly their allocation at lengths 1..9.",
+    note="Language-level UB that no native run can confirm (an out-of-bounds pointer that is formed but never dereferenced) is listed separately as UB-OBSERVATION (known_findings.json: ub_observations), triaged by reading, never as a violation. Uninitialised reads, assembly kernels and the documented alloc_aligned/dealloc layout mismatch are outside (tool limits).",
+    technique=KANI + "; CBMC pointer/bounds checks over histories with explicit metadata-invariant assertions",
+    ref="DESIGN.md §5 C17",
+)
 NA = {}
 DEFAULT_NA = "not yet implemented in this revision (work in progress)"
 
